@@ -268,6 +268,48 @@ def apply(it, fn, args, dest_ty, term, caller, depth):
         if b is None:
             return args[0]
 
+    # ---- String as a vector of chars
+    if path.startswith("core::string::String"):
+        if name in ("new", "with_capacity", "default"):
+            return VecV([])
+        r = vec_model(it, name, fn, args, dest_ty)
+        if r is not NotImplemented:
+            return r
+    # ---- `?` on Result / Option
+    if name == "branch" and fn.get("trait", "").endswith("Try") and len(args) == 1 and isinstance(args[0], Adt):
+        a = args[0]
+        CF = "std::ops::ControlFlow"
+        if a.name.endswith("result::Result"):
+            if a.variant == 0:
+                return Adt(CF, 0, [a.fields[0]])
+            return Adt(CF, 1, [Adt(a.name, 1, list(a.fields))])
+        if a.name.endswith("option::Option"):
+            if a.variant == 1:
+                return Adt(CF, 0, [a.fields[0]])
+            return Adt(CF, 1, [Adt(a.name, 0, [])])
+    if name == "from_residual" and len(args) == 1 and isinstance(args[0], Adt):
+        return args[0]
+    # ---- ExactSizeIterator::len on a user iterator: its own size_hint
+    if name == "len" and fn.get("trait", "").endswith("ExactSizeIterator") and len(args) == 1:
+        targs = fn.get("targs") or []
+        st = targs[0] if targs else ""
+        while st.startswith("&"):
+            st = st[1:].lstrip()
+            if st.startswith("mut "):
+                st = st[4:]
+        a0 = args[0]
+        while isinstance(a0, Ref) and isinstance(it.read(a0.cell, a0.path), Ref):
+            a0 = it.read(a0.cell, a0.path)
+        for b in it.facts.fns.values():
+            if b["path"].endswith("::size_hint") and st and b.get("impl_self", "").split("<")[0] == st.split("<")[0]:
+                r = it.call_body(b, [a0], depth + 1)
+                if isinstance(r, Tup):
+                    return r.fields[0]
+    # ---- formatter sinks succeed
+    if path.startswith("core::fmt::Formatter") and name in ("write_fmt", "write_str", "write_char", "pad"):
+        if it.h is not None:
+            it.h.note_opaque_call(it, fn, args, term, caller)
+        return Adt("std::result::Result", 0, [Tup([])])
     # ---- formatting / printing: results are irrelevant to the analysed behaviour
     if path.startswith("core::fmt::") or path.startswith("core::io::_print") or path.startswith("std::io::_print") \
             or path.startswith("core::io::stdio::_print") or path.startswith("log::"):
